@@ -193,7 +193,7 @@ pub fn generate(seed: u64, tier: Tier) -> Case {
     // other (the rejected ones are vacuous here and C12's business).
     for _ in 0..(if rng.chance(1, 10) { rng.range(1, 2) } else { 0 }) {
         let stem = *rng.pick(&[
-            ".", "..", "...", "a..b", ".a", "a b", " ", "-", "a-b", "\u{e9}t\u{e9}", "m\u{b2}", "3d", "_", "x.y.z", "..a", "a.",
+            "", ".", "..", "...", "a..b", ".a", "a b", " ", "-", "a-b", "\u{e9}t\u{e9}", "m\u{b2}", "3d", "_", "x.y.z", "..a", "a.",
             // not UTF-8 (`%XX` is that byte)
             "a%FF", "%FE", "caf%E9",
         ]);
@@ -328,7 +328,7 @@ pub fn generate(seed: u64, tier: Tier) -> Case {
             let outs: Vec<String> = world
                 .module_files()
                 .iter()
-                .map(|(p, _)| format!("{}.rs", p.trim_end_matches(".pyxis")))
+                .map(|(p, _)| output_path(p))
                 .collect();
             for k in 0..rng.range(1, 4) {
                 match rng.below(4) {
@@ -558,6 +558,21 @@ pub fn generate(seed: u64, tier: Tier) -> Case {
     }
 }
 
+/// Where the output of the module file `rel` belongs: the same relative path with `.rs` for
+/// `.pyxis`. A file called just `.pyxis` has nothing in front of its extension; it keeps its
+/// whole name (`.pyxis.rs`).
+fn output_path(rel: &str) -> String {
+    let (dir, name) = match rel.rsplit_once('/') {
+        Some((d, n)) => (format!("{d}/"), n),
+        None => (String::new(), rel),
+    };
+    if name == ".pyxis" {
+        format!("{dir}.pyxis.rs")
+    } else {
+        format!("{dir}{}.rs", name.trim_end_matches(".pyxis"))
+    }
+}
+
 fn items_of(text: &str) -> Result<Vec<String>, String> {
     let f = syn::parse_file(text).map_err(|e| e.to_string())?;
     Ok(f.items
@@ -574,7 +589,7 @@ fn check_build(case: &Case, w: usize, r: &RunResult) -> Result<(), (String, Stri
     // Expected file set.
     let mut expected: BTreeMap<String, usize> = BTreeMap::new();
     for (mi, (rel, _, _)) in parsed.modules.iter().enumerate() {
-        let out = format!("{}.rs", rel.trim_end_matches(".pyxis"));
+        let out = output_path(rel);
         if expected.insert(out.clone(), mi).is_some() {
             return Err(("vacuous".into(), format!("two modules map to {out}")));
         }
@@ -1002,7 +1017,7 @@ pub fn evaluate(case: &Case, results: &[Vec<RunResult>], report: &mut CaseReport
             }
             report.count("oracle:compared_with_build_into_other_output_state", 1);
             for (rel, _) in wa.module_files() {
-                let out = format!("{}.rs", rel.trim_end_matches(".pyxis"));
+                let out = output_path(&rel);
                 if ra.files().get(out.as_str()) != rb.files().get(out.as_str()) {
                     return Verdict::violation(
                         "output-depends-on-pre-existing-output-state",
